@@ -238,6 +238,17 @@ def check(ctx, lib, c):
     cls = "%s-%s-%s" % (gs, "comp" if comp else "uncomp", label)
     ctx.count(c, label != "none", cls + (":accept" if exp_ok else ":reject"))
     sig = "%s_unmarshal/%s/%s" % (gs, "compressed" if comp else "uncompressed", label)
+    # the same bytes through the other decoder of the same length (96 bytes: G1 uncompressed and G2 compressed), right after this
+    # one: each decoder's verdict is a function of the bytes and its own form alone, whatever was decoded before
+    if len(data) == 96:
+        g2_, comp2 = (2, True) if g == 1 else (1, False)
+        exp2, P2 = ref_decode(lib, g2_, data, comp2)
+        ok4, img4 = lib_decode(lib, g2_, data, comp2, True, c["prefill"])
+        ctx.event("cross-decoder-96")
+        expect(ok4 == exp2, "g%d_unmarshal/%s/after-other-decoder" % (g2_, "compressed" if comp2 else "uncompressed"),
+               lambda: "bytes %s: just %s as g%d, then decoded as g%d %s: verdict %r, expected %r" % (data.hex(), "accepted" if ok else "rejected", g, g2_, "compressed" if comp2 else "uncompressed", ok4, exp2))
+        if exp2 and ok4:
+            expect(c05.b_aff(lib, g2_, img4) == P2, "g%d_unmarshal/%s/after-other-decoder/wrong-point" % (g2_, "compressed" if comp2 else "uncompressed"), lambda: data.hex())
     if exp_ok:
         expect(ok, sig + "/rejected-valid", lambda: "bytes=%s" % data.hex())
         got = c05.b_aff(lib, g, img)
@@ -256,6 +267,7 @@ def check(ctx, lib, c):
         why = "non-canonical" if label in ("junk_top", "plus_q", "ge_q") else label
         expect(not ok, "%s_unmarshal/%s/accepted-invalid/%s" % (gs, "compressed" if comp else "uncompressed", why),
                lambda: "validating decode accepted %s (%s)" % (data.hex(), label))
+
 
 
 def prebuild(tier):
